@@ -271,13 +271,16 @@ package klog
 //@ ensures result == emod(dn(d.year, d.month, d.day) + 5, 7) + 1
 
 // ---------------------------------------------------------------------------------------------
-// Summaries: Tags() is text processing (regular expressions); callers that only need the numbers use this contract.
+// Summaries: Tags() applies the tag pattern to every summary line on its own (the cut: the scanned text is one of the
+// summary's lines, so a quoted value can never extend over a line break), builds each match with NewTagFromString
+// and puts it into a fresh set. Which substrings of a line the pattern yields is the regexp engine's business (A-CODEC).
 //@ func (RecordSummary).Tags
-//@ trusted
-//@ ensures result != nil
+//@ before FindAllStringSubmatch assert exists(i, 0, len(s), same(l, s[i]))
+//@ ensures result != nil && nonnil(result.lookup)
+//@ loop 1 invariant nonnil(tags.lookup)
+//@ loop 2 invariant nonnil(tags.lookup)
 //@ func (EntrySummary).Tags
-//@ trusted
-//@ ensures result != nil
+//@ ensures result != nil && nonnil(result.lookup)
 
 // ---------------------------------------------------------------------------------------------
 // Entries and records
